@@ -110,6 +110,12 @@ def main():
                     shutil.rmtree(os.path.join(C.CACHE, d), ignore_errors=True)
         except Exception:
             pass
+        # drop the private copy of the Coq development the check made for this tree
+        try:
+            import hashlib
+            shutil.rmtree(os.path.join(C.CACHE + "-coq", hashlib.sha1(os.path.realpath(wt).encode()).hexdigest()[:12]), ignore_errors=True)
+        except Exception:
+            pass
         # restore evidence produced against the mutated tree
         shutil.rmtree(os.path.join(ROOT, "evidence", "replays"), ignore_errors=True)
     return 0
